@@ -6,6 +6,7 @@ import (
 	"encoding/json"
 	"errors"
 	"fmt"
+	"github.com/nspcc-dev/neo-go/pkg/crypto/hash"
 	"os"
 	"reflect"
 	"regexp"
@@ -115,6 +116,9 @@ func genBytesCase(t *rapid.T) BytesCase {
 		c.Tape = genTape(t, 200)
 		c.Hostile = rapid.Bool().Draw(t, "hostile")
 		c.Muts = genMuts(1, 3)
+		if strings.HasPrefix(c.Kind, "nef") && pick(t, 3, "fixsum") != 0 {
+			c.Muts = append(c.Muts, Mut{Op: "fixsum"})
+		}
 		if strings.HasPrefix(c.Kind, "msg") && pick(t, 3, "fix") != 0 {
 			c.Muts = append(c.Muts, Mut{Op: "fixlen"})
 			if pick(t, 4, "wrap") == 0 {
@@ -281,6 +285,13 @@ func (m *mutState) apply(k *kind, mu Mut) {
 			}
 			m.replace(p, sz, putVarRef(nil, nv, 0))
 		}
+	case "fixsum":
+		// NEF files end with a checksum of everything before it: make it agree with the (edited) bytes again, so
+		// that the edit is judged by the parser and not stopped by the checksum of the bytes as received.
+		if !strings.HasPrefix(k.name, "nef") || len(b) <= 4 {
+			return
+		}
+		copy(b[len(b)-4:], hash.Checksum(b[:len(b)-4]))
 	case "fixlen":
 		// P2P frames: make the length prefix agree with the (edited) payload again.
 		if !strings.HasPrefix(k.name, "msg") || len(b) < 3 || b[0] != 0 {
